@@ -212,6 +212,7 @@ func c04Eval(c *fw.Ctx, data any) {
 	ds := rec.DiffAll(want, spec.Canon(got), 8)
 	if len(ds) == 0 {
 		c.Count("parsed_equal", 1)
+		c04OtherVersions(c, kind, m, wire, got)
 		if c.WantSample() && nontrivialSwitch(m) && len(wire) < 600 {
 			c.Sample(map[string]any{"recipe": m, "wire": fmt.Sprintf("%x", wire)})
 		}
@@ -232,4 +233,39 @@ func c04ErrLocus(m *rec.Rec, chain string) string {
 		return "payload(" + chain + ")"
 	}
 	return "error"
+}
+
+
+// c04OtherVersions: version negotiation (OpenFlow 1.3.5 section 6.3.1). A switch puts the highest version it supports
+// into the header of its hello, and answers a failed negotiation with an OFPET_HELLO_FAILED error that carries its own
+// version; both are conformant with a version byte other than 4 and must parse to the same fields.
+func c04OtherVersions(c *fw.Ctx, kind string, m *rec.Rec, wire []byte, base *rec.Rec) {
+	if !(m.K == "hello" || (m.K == "error" && m.U("type") == 0)) || len(wire) < 8 {
+		return
+	}
+	for _, ver := range []byte{1, 2, 3, 5, 6} {
+		in := append([]byte(nil), wire...)
+		in[0] = ver
+		var msg util.Message
+		var perr error
+		var got *rec.Rec
+		p, pv, st := fw.Recover(func() {
+			msg, perr = of.Parse(in)
+			if perr == nil && !isNil(msg) {
+				got, perr = lib.ExtractMessage(msg)
+			}
+		})
+		c.Count("other_version_parses", 1)
+		switch {
+		case p:
+			c.Violation(kind, "panic", "version:"+fw.LibFrame(st), pv+"\n"+fw.TrimStack(st))
+		case perr != nil || got == nil:
+			c.Violation(kind, "parse-error", fmt.Sprintf("header-version-%d", ver), fmt.Sprintf("a %s with version byte %d (version negotiation) was not parsed: %v\nwire: %s", m.K, ver, perr, hexHead(in)))
+		default:
+			w := spec.Canon(base.Clone()).Set("_version", uint64(ver))
+			for _, d := range rec.DiffAll(w, spec.Canon(got), 4) {
+				c.Violation(kind, "field", fmt.Sprintf("header-version-%d%s", ver, d.Path), fmt.Sprintf("a %s with version byte %d parses differently from the same message with version 4: %s", m.K, ver, d.Detail))
+			}
+		}
+	}
 }
